@@ -1,5 +1,291 @@
-"""E8 - self-test of the checker (thorough tier). Filled in per property; see selftest variants."""
+"""E8 - self-test of the checker (thorough tier).
+
+For one property it analyses, entirely in memory (overlay on /repo's current tree, nothing is
+written to /repo), four families of variants:
+
+1. reverted fixes   - each `fix:` commit recorded for the property, applied in reverse: the rule
+                      that found the defect must fire again;
+2. seeded changes   - /verif/seeded/<id>/patch.diff written by independent sub-agents: the rules
+                      recorded in seeded/EXPECT.json must fire;
+3. sentinel edits   - selftest/variants.json: small hand-written breaking edits (must fire, naming
+                      the expected rule) and behaviour-preserving edits (must stay silent);
+4. whole-file reformatting of every file the property's rules consulted (ast round trip: strips
+   comments, re-wraps every expression) - must stay silent;
+5. generic mutants  - statement deletion / operator / argument swaps inside the functions the
+                      rules anchored on; the share that is detected is reported (informational:
+                      many generic mutants do not violate the property).
+
+A self-test failure means the CHECKER is broken (exit 2), never that armi is wrong.
+"""
+from __future__ import annotations
+
+import ast
+import contextlib
+import copy
+import io
+import json
+import os
+import random
+import time
+from concurrent.futures import ProcessPoolExecutor
+
+HERE = os.path.dirname(os.path.dirname(os.path.abspath(__file__)))
 
 
-def run(prop, root, chk):
-    return 0
+def _run(prop, root, overlay):
+    from .main import run_property
+
+    buf = io.StringIO()
+    with contextlib.redirect_stdout(buf):
+        code, chk = run_property(prop, root, overlay=overlay, write=False, quiet=True)
+    hits = sorted({r.id for r in chk.rules for i in r.instances if i.status == "violation"})
+    errs = [e for r in chk.rules for e in r.errors]
+    return code, hits, errs
+
+
+def _job(args):
+    prop, root, kind, name, overlay, expect = args
+    try:
+        code, hits, errs = _run(prop, root, overlay)
+    except Exception as e:  # pragma: no cover
+        return kind, name, 2, [], [f"{type(e).__name__}: {e}"], expect
+    return kind, name, code, hits, errs, expect
+
+
+def _files_of(chk):
+    return sorted({i.file for r in chk.rules for i in r.instances if i.file.endswith(".py")})
+
+
+def _anchored_functions(chk):
+    out = {}
+    for r in chk.rules:
+        for i in r.instances:
+            if i.file.endswith(".py") and i.qual and i.qual != "<module>":
+                out.setdefault(i.file, set()).add(i.qual)
+    return out
+
+
+class _Mutator(ast.NodeTransformer):
+    """applies the k-th applicable mutation inside the selected functions"""
+
+    def __init__(self, quals, k=None):
+        self.quals, self.k, self.n = quals, k, 0
+        self.stack = []
+        self.done = None
+
+    def _in(self):
+        return ".".join(self.stack) in self.quals or (len(self.stack) >= 1 and self.stack[-1] in {q.split(".")[-1] for q in self.quals} and ".".join(self.stack[-2:]) in self.quals)
+
+    def visit_ClassDef(self, n):
+        self.stack.append(n.name)
+        self.generic_visit(n)
+        self.stack.pop()
+        return n
+
+    def visit_FunctionDef(self, n):
+        self.stack.append(n.name)
+        if self._in():
+            n.body = self._body(n.body)
+        self.generic_visit(n)
+        self.stack.pop()
+        return n
+
+    def _hit(self, what, node):
+        i = self.n
+        self.n += 1
+        if self.k is not None and i == self.k:
+            self.done = (what, getattr(node, "lineno", 0))
+            return True
+        return False
+
+    def _body(self, body):
+        out = []
+        for s in body:
+            if isinstance(s, (ast.Expr, ast.Assign, ast.AugAssign)) and not (isinstance(s, ast.Expr) and isinstance(s.value, ast.Constant)) and len(body) > 1:
+                if self._hit("delete-statement", s):
+                    continue
+            for f in ("body", "orelse", "finalbody"):
+                if isinstance(getattr(s, f, None), list) and getattr(s, f) and isinstance(getattr(s, f)[0], ast.stmt):
+                    setattr(s, f, self._body(getattr(s, f)) or [ast.Pass()])
+            out.append(s)
+        return out
+
+    def visit_Compare(self, n):
+        self.generic_visit(n)
+        if self.stack and self._in() and len(n.ops) == 1:
+            sw = {ast.Lt: ast.LtE, ast.LtE: ast.Lt, ast.Gt: ast.GtE, ast.GtE: ast.Gt, ast.Eq: ast.NotEq, ast.NotEq: ast.Eq, ast.Is: ast.IsNot, ast.IsNot: ast.Is, ast.In: ast.NotIn, ast.NotIn: ast.In}
+            t = sw.get(type(n.ops[0]))
+            if t is not None and self._hit("flip-comparison", n):
+                n.ops = [t()]
+        return n
+
+    def visit_BinOp(self, n):
+        self.generic_visit(n)
+        if self.stack and self._in():
+            sw = {ast.Add: ast.Sub, ast.Sub: ast.Add, ast.Mult: ast.Div, ast.Div: ast.Mult}
+            t = sw.get(type(n.op))
+            if t is not None and self._hit("swap-arithmetic", n):
+                n.op = t()
+        return n
+
+    def visit_BoolOp(self, n):
+        self.generic_visit(n)
+        if self.stack and self._in() and self._hit("and<->or", n):
+            n.op = ast.Or() if isinstance(n.op, ast.And) else ast.And()
+        return n
+
+    def visit_Call(self, n):
+        self.generic_visit(n)
+        if self.stack and self._in() and len(n.args) >= 2 and not any(isinstance(a, ast.Starred) for a in n.args) and ast.dump(n.args[0]) != ast.dump(n.args[1]):
+            if self._hit("swap-first-two-arguments", n):
+                n.args[0], n.args[1] = n.args[1], n.args[0]
+        return n
+
+
+def _count_mutants(src, quals):
+    m = _Mutator(quals, None)
+    m.visit(ast.parse(src))
+    return m.n
+
+
+def _mutant(src, quals, k):
+    m = _Mutator(quals, k)
+    tree = m.visit(ast.parse(src))
+    ast.fix_missing_locations(tree)
+    return ast.unparse(tree), m.done
+
+
+def run(prop, root, base_chk, budget_mutants=None):
+    from .overlay import overlay_from_patch
+
+    t0 = time.time()
+    jobs = []
+    # 1 reverted fixes
+    kf = json.load(open(os.path.join(HERE, "known_findings.json")))
+    for fx in kf.get("fixed", []):
+        if fx.get("property") == prop:
+            pf = os.path.join(HERE, "findings", "reverts", fx["commit"] + ".patch")
+            if os.path.exists(pf):
+                try:
+                    ov = overlay_from_patch(pf, reverse=True, root=root)
+                except Exception as e:
+                    jobs.append((prop, root, "revert", fx["commit"], None, {"skip": str(e)[:80]}))
+                    continue
+                jobs.append((prop, root, "revert", f"{fx['id']}@{fx['commit']}", ov, {"rules": [fx["rule"]]}))
+    # 2 seeded changes
+    ep = os.path.join(HERE, "seeded", "EXPECT.json")
+    expect = json.load(open(ep)) if os.path.exists(ep) else {}
+    for sid, ex in sorted(expect.items()):
+        if prop in ex:
+            pf = os.path.join(HERE, "seeded", sid, "patch.diff")
+            try:
+                ov = overlay_from_patch(pf, root=root)
+            except Exception as e:
+                jobs.append((prop, root, "seed", sid, None, {"skip": str(e)[:80]}))
+                continue
+            jobs.append((prop, root, "seed", sid, ov, {"rules": ex[prop]}))
+    # 3 sentinel edits
+    vp = os.path.join(HERE, "selftest", "variants.json")
+    variants = json.load(open(vp)) if os.path.exists(vp) else []
+    for v in variants:
+        if v["property"] != prop:
+            continue
+        rel = v["file"]
+        p = os.path.join(root, rel)
+        if not os.path.exists(p):
+            jobs.append((prop, root, "sentinel", v["name"], None, {"skip": "file missing"}))
+            continue
+        src = open(p).read()
+        if src.count(v["old"]) != 1:
+            jobs.append((prop, root, "sentinel", v["name"], None, {"skip": "anchor text not found exactly once (tree changed)"}))
+            continue
+        jobs.append((prop, root, "sentinel" if v.get("expect") else "preserving", v["name"], {rel: src.replace(v["old"], v["new"], 1)}, {"rules": [v["expect"]] if v.get("expect") else []}))
+    # 4 reformat every consulted file
+    files = _files_of(base_chk)
+    ov = {}
+    for rel in files:
+        p = os.path.join(root, rel)
+        if os.path.exists(p):
+            try:
+                ov[rel] = ast.unparse(ast.parse(open(p).read()))
+            except SyntaxError:
+                pass
+    if ov:
+        jobs.append((prop, root, "preserving", f"reformat {len(ov)} consulted files (ast round trip)", ov, {"rules": []}))
+    # 5 generic mutants
+    anchored = _anchored_functions(base_chk)
+    rng = random.Random(int(os.environ.get("VERIF_SEED", "0") or 0))
+    budget = budget_mutants if budget_mutants is not None else int(os.environ.get("ARMIVERIF_MUTANTS", "160"))
+    cand = []
+    for rel, quals in sorted(anchored.items()):
+        p = os.path.join(root, rel)
+        if not os.path.exists(p):
+            continue
+        src = open(p).read()
+        try:
+            n = _count_mutants(src, quals)
+        except SyntaxError:
+            continue
+        cand += [(rel, k) for k in range(n)]
+    rng.shuffle(cand)
+    srcs = {}
+    for rel, k in cand[:budget]:
+        src = srcs.setdefault(rel, open(os.path.join(root, rel)).read())
+        try:
+            msrc, what = _mutant(src, anchored[rel], k)
+            compile(msrc, rel, "exec")
+        except Exception:
+            continue
+        jobs.append((prop, root, "mutant", f"{rel}:{what[1]}:{what[0]}", {rel: msrc}, {"rules": None}))
+    results = []
+    runnable = [j for j in jobs if j[4] is not None]
+    with ProcessPoolExecutor(min(16, max(1, len(runnable)))) as ex:
+        for res in ex.map(_job, runnable, chunksize=4):
+            results.append(res)
+    skipped = [(j[2], j[3], j[5]["skip"]) for j in jobs if j[4] is None]
+    failures = []
+    stats = {"revert": [0, 0], "seed": [0, 0], "sentinel": [0, 0], "preserving": [0, 0], "mutant": [0, 0]}
+    survivors = []
+    samples = []
+    for kind, name, code, hits, errs, exp in results:
+        stats[kind][1] += 1
+        if kind in ("revert", "seed", "sentinel"):
+            ok = code == 1 and (not exp["rules"] or bool(set(exp["rules"]) & set(hits)))
+            stats[kind][0] += ok
+            if not ok:
+                failures.append(f"{kind} `{name}`: expected a violation of {exp['rules']}, got exit {code} rules {hits} {errs[:1]}")
+        elif kind == "preserving":
+            ok = code == 0
+            stats[kind][0] += ok
+            if not ok:
+                failures.append(f"behaviour-preserving variant `{name}` made the check report exit {code}: rules {hits} {errs[:1]}")
+        else:
+            det = code == 1
+            stats[kind][0] += det
+            if not det:
+                survivors.append(name + (" (analysis error)" if code == 2 else ""))
+        if len(samples) < 12:
+            samples.append({"kind": kind, "variant": name[:120], "exit": code, "rules_fired": hits[:4]})
+    wall = time.time() - t0
+    print(f"[{prop}] self-test: " + ", ".join(f"{k} {v[0]}/{v[1]}" for k, v in stats.items()) + f", skipped {len(skipped)}, {wall:.1f}s")
+    for f in failures:
+        print(f"ANALYSIS-ERROR property={prop} self-test: {f}")
+    # merge into the evidence file written by the quick part
+    evp = os.path.join(HERE, "evidence", f"{prop}.json")
+    try:
+        ev = json.load(open(evp))
+        ev["tier"] = "thorough"
+        cov = ev["coverage"]
+        cov["selftest"] = {
+            "reverted_fixes_detected": stats["revert"], "seeded_changes_detected": stats["seed"], "sentinel_edits_detected": stats["sentinel"],
+            "behaviour_preserving_variants_silent": stats["preserving"], "generic_mutants_detected": stats["mutant"], "skipped": skipped[:10],
+            "generic_mutant_survivors_sample": survivors[:25], "failures": failures, "samples": samples,
+            "note": "generic mutants are NOT all property violations; their detection rate is informational. Reverted fixes, seeded changes and sentinel edits must all be detected; preserving variants must all be silent.",
+        }
+        cov["evaluations"] = cov.get("evaluations", 0) + len(results)
+        ev["wall_s"] = round(ev.get("wall_s", 0) + wall, 3)
+        json.dump(ev, open(evp, "w"), indent=1, default=str)
+    except Exception as e:  # pragma: no cover
+        print(f"ANALYSIS-ERROR property={prop} self-test could not update evidence: {e}")
+        return 2
+    return 2 if failures else 0
